@@ -480,10 +480,167 @@ def r10_faults_propagate_from_transport_methods(ck, cx):
     ck.floor('R10', n, 8, 'normally returning paths of the transport methods')
 
 
+def _hdr_key(n):
+    """self._header['k'] -> 'k' (constant key), else None"""
+    if isinstance(n, ast.Subscript) and isinstance(n.value, ast.Attribute) and U(n.value) == 'self._header':
+        k = n.slice
+        if isinstance(k, ast.Constant) and isinstance(k.value, str):
+            return k.value
+    return None
+
+
+def header_literals(cx, cls):
+    """every whole-object assignment to self._header in the class: (function, node, key set or None when not a dict display)"""
+    out = []
+    for k in cx.idx.mro(cls):
+        for fn in k.methods.values():
+            if cx.idx.find_method(cls, fn.name) is not fn:
+                continue
+            for n in ast.walk(fn.node):
+                if isinstance(n, ast.Assign) and any(isinstance(t, ast.Attribute) and U(t) == 'self._header' for t in n.targets):
+                    v = n.value
+                    keys = None
+                    if isinstance(v, ast.Dict) and all(isinstance(x, ast.Constant) for x in v.keys):
+                        keys = frozenset(x.value for x in v.keys)
+                    elif isinstance(v, ast.Call) and callee_name(v) == 'dict' and not v.args:
+                        keys = frozenset(kw.arg for kw in v.keywords if kw.arg)
+                    out.append((fn, n, keys))
+    return out
+
+
+def r11_header_fields_present(ck, cx, rule='R11'):
+    """The framers keep the parsed header in a dict and index it with constant keys.  A key that is absent where it is read raises
+    KeyError, which nothing between processIncomingPacket and the caller of the client catches: the call raises instead of returning
+    an error object.  Definite-assignment analysis with EXACT key sets over the paths of processIncomingPacket (called the way the
+    transaction manager calls it: no keyword arguments): the possible entry states are the key sets of every whole-dict assignment
+    in the class (constructor, resetFrame, advanceFrame all leave the framer in an entry state), closed under the exit states of
+    the normally returning paths; `self._header` used as a truth value is decided from the key set."""
+    ck.rule(rule, 'every constant-key read of the framer\'s header dict happens where the key is present, for every key set the framer can hold on entry (the whole-dict assignments of the class, closed under the exits of processIncomingPacket)')
+    n = 0
+    SKIP = ('loop', 'handler', 'finally', 'leave', 'enter')
+
+    def is_hdr(x):
+        return isinstance(x, ast.Attribute) and U(x) == 'self._header'
+
+    def hdr_truth(test, keys):
+        """truth value of a test that is the header dict itself (or its negation), else None"""
+        if is_hdr(test):
+            return bool(keys)
+        if isinstance(test, ast.UnaryOp) and isinstance(test.op, ast.Not) and is_hdr(test.operand):
+            return not keys
+        return None
+
+    def reads_of(node, keys, out):
+        """constant-key loads in evaluation order, honouring short-circuit on the header's own truth value"""
+        if isinstance(node, ast.BoolOp):
+            for v in node.values:
+                reads_of(v, keys, out)
+                t = hdr_truth(v, keys)
+                if t is not None and ((isinstance(node.op, ast.And) and not t) or (isinstance(node.op, ast.Or) and t)):
+                    return
+            return
+        k = _hdr_key(node)
+        if k is not None and isinstance(node.ctx, ast.Load):
+            out.append((k, node))
+        for c in ast.iter_child_nodes(node):
+            reads_of(c, keys, out)
+
+    for kind in sorted(FRAMER_CLASSES):
+        cls, f, fps = framer_paths(cx, kind, default_kwargs=True)
+        lits = header_literals(cx, cls)
+        if not lits:
+            continue
+        ck.saw('functions', f.qn)
+        unknown = [(fn, node) for fn, node, keys in lits if keys is None]
+        for fn, node in unknown:
+            ck.ob(rule, fn.qn, 'self._header is only ever assigned a dict display', False, detail='header-assigned-non-literal',
+                  loc=cx.floc(fn, node), message='%s assigns self._header something other than a dict display: its keys are not decidable' % fn.qn)
+        entries = {keys for fn, node, keys in lits if keys is not None}
+
+        def walk(fp, start, report):
+            """-> exit key set, or None when the path is infeasible for this entry state"""
+            d = set(start)
+            for ev in fp.path.ev:
+                node = ev.node
+                if ev.kind in SKIP or not isinstance(node, ast.AST) or isinstance(node, (ast.FunctionDef, ast.ClassDef)):
+                    continue
+                if ev.kind == 'cond':
+                    t = hdr_truth(node, d)
+                    if t is not None and t != ev.a:
+                        return None
+                reads, whole, stores = [], None, []
+                if ev.kind == 'assign' and isinstance(node, ast.Assign):
+                    reads_of(node.value, d, reads)
+                    flat = []
+                    for t in node.targets:
+                        flat += list(t.elts) if isinstance(t, (ast.Tuple, ast.List)) else [t]
+                    for t in flat:
+                        if is_hdr(t):
+                            v = node.value
+                            whole = frozenset(x.value for x in v.keys) if isinstance(v, ast.Dict) and all(isinstance(x, ast.Constant) for x in v.keys) else frozenset()
+                        k = _hdr_key(t)
+                        if k is not None:
+                            stores.append(k)
+                        elif isinstance(t, ast.Subscript):
+                            reads_of(t.slice, d, reads)
+                elif ev.kind == 'aug':
+                    reads_of(node, d, reads)
+                    k = _hdr_key(getattr(node, 'target', None))
+                    if k is not None:
+                        reads.append((k, node.target))
+                else:
+                    reads_of(node, d, reads)
+                for k, x in reads:
+                    if k not in d:
+                        report(ev, k, x, start)
+                if whole is not None:
+                    d = set(whole)
+                d.update(stores)
+            return frozenset(d)
+        for _ in range(8):
+            new = set(entries)
+            for fp in fps:
+                if fp.raised is not None or (fp.exit and fp.exit[0] == 'exc'):
+                    continue        # exceptional exits are R3's business
+                for e in entries:
+                    x = walk(fp, e, lambda *a: None)
+                    if x is not None:
+                        new.add(x)
+            if new == entries:
+                break
+            entries = new
+        bad, allreads = {}, {}
+
+        def rep(ev, k, x, start):
+            bad.setdefault((ev.frame.qn, k), (ev, x, start))
+        for fp in fps:
+            for e in sorted(entries, key=sorted):
+                walk(fp, e, rep)
+            for ev in fp.path.ev:
+                if isinstance(ev.node, ast.AST) and ev.kind not in SKIP:
+                    for x in ast.walk(ev.node):
+                        k = _hdr_key(x)
+                        if k is not None and isinstance(x.ctx, ast.Load):
+                            allreads.setdefault((ev.frame.qn, k), ev)
+        states = sorted(sorted(e) for e in entries)
+        for (qn, k), ev0 in sorted(allreads.items(), key=lambda kv: kv[0]):
+            n += 1
+            hit = bad.get((qn, k))
+            fn = (hit[0] if hit else ev0).frame.func or f
+            ck.ob(rule, qn, 'header[%r] is present where it is read, for each entry state of %s' % (k, states), hit is None,
+                  detail='header-key-may-be-absent %s' % k, loc=cx.floc(fn, hit[1]) if hit else cx.floc(fn),
+                  message='%s framer: %s reads self._header[%r] on a path of processIncomingPacket where the key does not exist when the framer '
+                          'is entered holding the keys %s (a state one of its own whole-dict assignments establishes): KeyError escapes the '
+                          'framer, so a client call raises instead of returning an error object'
+                          % (kind, qn, k, sorted(hit[2]) if hit else ''))
+    ck.floor(rule, n, 8, 'constant-key header reads on the paths of processIncomingPacket')
+
+
 def run(ck, tier):
     cx = Ctx()
     ck.guard(r8_send_wait_loop_progress, ck, cx)
     ck.guard(r10_faults_propagate_from_transport_methods, ck, cx)
+    ck.guard(r11_header_fields_present, ck, cx)
     from .c08 import r9_receive_accumulator_is_local
     ck.guard(r9_receive_accumulator_is_local, ck, cx, 'R9')
     ck.guard(r7_fixed_time_budget, ck, cx)
